@@ -120,7 +120,7 @@ Print Assumptions C17_responsive_drop.
    closed the connection) is accepted, cancels it, and none is ever armed again: whatever follows, the close-handshake
    timeout is never reported and no such call is pending (both roles; the server is CLOSED at once anyway) *)
 Theorem C17_responsive_close : forall c evs body txt evs2,
-  gone (fst (run c evs)) = false -> st (fst (run c evs)) = CLOSING -> body_valid body ->
+  gone (fst (run c evs)) = false -> st (fst (run c evs)) = CLOSING -> rxPartial (fst (run c evs)) = false -> body_valid body ->
   wasCloseTO (fst (run c evs)) = false ->
   wasCloseTO (fst (run c (evs ++ EPeerClose body txt :: evs2))) = false.
 Proof. exact responsive_close_reply. Qed.
@@ -132,6 +132,20 @@ Theorem C17_responsive_close_once_clean : forall c evs evs2,
 Proof. exact responsive_close. Qed.
 Print Assumptions C17_responsive_close_once_clean.
 
+(* "any traffic" (autoPingRestartOnAnyTraffic): the end of EVERY data frame counts -- first fragment (cont = false,
+   fin = false), middle fragment, last fragment, unfragmented message; EPeerData and EPeerTail (a frame delivered in two
+   reads) run the same [data_frame_end].  While a ping timeout is pending it is cancelled, the outstanding ping is forgotten
+   and the next ping is armed with fire time <= now + autoPingInterval.  (Pings and non-matching pongs are not data and do
+   not count; the head of a frame whose payload is still incomplete does not count until the frame ends.) *)
+Theorem C17_any_data_frame_restarts : forall c s cont fin,
+  frames_ready s = true -> Bool.eqb cont (inMsg s) = true ->
+  isSome (hPingTO s) = true -> autoPingRestartOnAnyTraffic c = true -> TI1 (timers s) (now s) ->
+  let s' := fst (step c s (EPeerFrag cont fin)) in
+  pingPending s' = None /\ hPingTO s' = None /\
+  (0 < autoPingInterval c -> pendLe TAutoPing (now s + autoPingInterval c) (timers s')).
+Proof. exact any_data_frame_restarts. Qed.
+Print Assumptions C17_any_data_frame_restarts.
+
 (* auto ping, PARTIAL: what is proved is the step itself -- a matching pong while a ping is outstanding (any state in
    which frames flow, reachable or not) clears the outstanding ping, cancels and clears the timeout handle and arms the
    next ping with a fire time <= now + autoPingInterval -- together with C17_timeout_fires (an uncancelled timeout call
@@ -141,7 +155,7 @@ Print Assumptions C17_responsive_close_once_clean.
    of invariant G for a call that is re-armed after every pong), from which "the cancelled handle was the only
    ping-timeout call" and "while OPEN with interval > 0 a ping call is pending or a ping is outstanding" follow.  Both
    are exercised on every grid placement by the correspondence run (families ping, periodic). *)
-Theorem C17_responsive_ping_partial : forall c s q, frames_flow s = true -> pingPending s = Some q ->
+Theorem C17_responsive_ping_partial : forall c s q, frames_ready s = true -> pingPending s = Some q ->
   TI1 (timers s) (now s) ->
   let s' := fst (step c s (EPeerPong true)) in
   pingPending s' = None /\ hPingTO s' = None /\ st s' = st s /\
@@ -250,4 +264,12 @@ Example C17_witness_proxy_silent_server :
   openF c = 2000 /\
   snd (run c [ETick 1250; EProxyOk; ETick 1999; ETick 2000; EOwnDrop]) =
   [(375, WHttp); (1250, WHttp); (2000, IsClosed); (2000, Abort); (2000, CbClose false (Some 1006) None ROpenTO)].
+Proof. vm_compute. auto. Qed.
+
+(* a non-final fragment 1 s before the ping deadline keeps the peer alive; with the option off it does not *)
+Example C17_witness_fragment_is_traffic :
+  let on := mkCfg Server true false 2000 1000 0 1000 2000 12 true 375 false in
+  let off := mkCfg Server true false 2000 1000 0 1000 2000 12 false 375 false in
+  let evs := [EHandshake; ETick 1000; ETick 2000; EPeerFrag false false; ETick 3000] in
+  st (fst (run on evs)) = OPEN /\ st (fst (run off evs)) = CLOSED /\ ncr (fst (run off evs)) = RPingTO.
 Proof. vm_compute. auto. Qed.
